@@ -72,7 +72,7 @@ inline double to_double(scalar x) {
 inline void observe(const std::string &name, scalar x) { if (concrete()) st().obs.push_back({st().current_case+"/"+name, to_double(x)}); }
 
 #ifdef HX_SYM
-using symx::eq; using symx::lt; using symx::le; using symx::all_of; using symx::any_of; using symx::implies;
+using symx::ne; using symx::eq; using symx::lt; using symx::le; using symx::all_of; using symx::any_of; using symx::implies;
 inline F tt() { return F::tt(); }
 inline void fail_concrete(const std::string &name, const std::string &detail) { st().fails.push_back({st().current_case,name,detail}); }
 inline void prove(const std::string &name, const F &f) {
@@ -86,6 +86,7 @@ inline void require(const std::string &name, bool ok, const std::string &detail=
     symx::s_require(name,ok,detail); }
 #else
 inline F eq(scalar a, scalar b) { double sc=std::max(1.0,std::max(std::fabs(a),std::fabs(b))); return F{ std::fabs(a-b) <= st().tol*sc }; }
+inline F ne(scalar a, scalar b) { return F{ a!=b }; }
 inline F lt(scalar a, scalar b) { double sc=std::max(1.0,std::max(std::fabs(a),std::fabs(b))); return F{ a < b + st().tol*sc }; }
 inline F le(scalar a, scalar b) { double sc=std::max(1.0,std::max(std::fabs(a),std::fabs(b))); return F{ a <= b + st().tol*sc }; }
 inline F operator!(const F &a) { return F{!a.v}; }
@@ -100,10 +101,36 @@ inline void prove(const std::string &name, const F &f) { st().dbl_obligations++;
 inline void prove_all(const std::string &name, const std::vector<F> &fs) { for (size_t i=0;i<fs.size();++i) prove(name+"["+std::to_string(i)+"]",fs[i]); }
 inline void require(const std::string &name, bool ok, const std::string &detail="") { st().dbl_obligations++; if (!ok) fail_concrete(name,detail); }
 #endif
-inline void prove_eq(const std::string &name, scalar a, scalar b) { observe(name+".lhs",a); observe(name+".rhs",b); prove(name,eq(a,b)); }
+struct outside_precondition {};
+// stated precondition of a property: assumed on symbolic paths; a concrete point violating it is skipped
+inline void assume(const F &f) {
+#ifdef HX_SYM
+    if (concrete()) { if (!symx::eval_f_tol(f,0)) throw outside_precondition(); return; }
+    symx::s_assume(f);
+#else
+    if (!f.v) throw outside_precondition();
+#endif
+}
+// cut points: while on, every division by a non-constant yields a fresh variable (its definition is remembered)
+inline void cuts(bool on) {
+#ifdef HX_SYM
+    if (!concrete()) symx::ctx().havoc_div=on;
+#endif
+}
+inline scalar unfold(scalar x) {
+#ifdef HX_SYM
+    if (!concrete()) return symx::unfold(x);
+#endif
+    return x; }
+inline void validate(scalar x) {
+#ifdef HX_SYM
+    if (!concrete()) symx::validate_nf(x);
+#endif
+}
+inline void prove_eq(const std::string &name, scalar a, scalar b) { validate(a); validate(b); observe(name+".lhs",a); observe(name+".rhs",b); prove(name,eq(a,b)); }
 template<class VA, class VB> inline void prove_eq_vec(const std::string &name, const VA &a, const VB &b) {
     if (a.size()!=b.size()) { require(name+" sizes", false, "size mismatch"); return; }
-    std::vector<F> fs; for (size_t i=0;i<a.size();++i) { observe(name+"["+std::to_string(i)+"].lhs",a[i]); observe(name+"["+std::to_string(i)+"].rhs",b[i]); fs.push_back(eq(a[i],b[i])); } prove_all(name,fs); }
+    std::vector<F> fs; for (size_t i=0;i<a.size();++i) { validate(a[i]); validate(b[i]); observe(name+"["+std::to_string(i)+"].lhs",a[i]); observe(name+"["+std::to_string(i)+"].rhs",b[i]); fs.push_back(eq(a[i],b[i])); } prove_all(name,fs); }
 
 // raw-handle identity: the two values were produced by the same operations on the same operands in the same order
 // (implies bitwise equality at any IEEE type).  In the double build: bitwise equality.
@@ -125,6 +152,7 @@ template<class Body> inline void run_case(const std::string &name, Body body, co
     s.current_case=name; s.cases_run++; if (s.case_names.size()<4) s.case_names.push_back(name);
     auto guarded=[&]() {
         try { body(); }
+        catch (const outside_precondition &) { st().counters["concrete points outside the stated precondition (skipped)"]++; }
         catch (const std::exception &e) { require("no unexpected exception", false, std::string("uncaught std::exception: ")+e.what()); }
     };
 #ifdef HX_SYM
@@ -134,7 +162,7 @@ template<class Body> inline void run_case(const std::string &name, Body body, co
         for (size_t i=v0;i<r.violations.size();++i) r.violations[i].casename=name;
         for (size_t i=i0;i<r.inconclusive.size();++i) r.inconclusive[i]=name+": "+r.inconclusive[i];
         return; }
-    { symx::Ctx &c=symx::ctx(); c.reset_path(); c.prefix.clear(); c.work.clear(); c.concrete_mode=true; c.havocs.clear(); c.havoc_of_var.clear(); c.nhavoc=0; c.havoc_div=false; c.stage=name;
+    { symx::Ctx &c=symx::ctx(); c.reset_path(); c.prefix.clear(); c.work.clear(); c.concrete_mode=true; c.havocs.clear(); c.havoc_of_var.clear(); c.havoc_raw.clear(); c.nhavoc=0; c.havoc_div=false; c.stage=name;
       try { guarded(); } catch (const symx::engine_stop &e) { fail_concrete("engine stop", e.why); } }
 #else
     guarded();
@@ -179,7 +207,7 @@ inline int finish() { State &s=st(); if (args().list) return 0; std::ostringstre
       o<<",\"obligations\":"<<r.obligations<<",\"discharged\":"<<r.discharged<<",\"trivial\":"<<r.trivial<<",\"queries\":"<<r.queries<<",\"q_unsat\":"<<r.q_unsat<<",\"q_sat\":"<<r.q_sat<<",\"q_unknown\":"<<r.q_unknown
        <<",\"solver_errors\":"<<r.solver_errors<<",\"last_error\":\""<<jesc(r.last_error)<<"\",\"solver_s\":"<<symx::solver().total_s<<",\"paths\":"<<r.paths<<",\"paths_pruned\":"<<r.paths_pruned<<",\"paths_unexplored\":"<<r.paths_unexplored<<",\"paths_stopped\":"<<r.paths_stopped
        <<",\"reach_sat\":"<<r.reach_sat<<",\"reach_unsat\":"<<r.reach_unsat<<",\"reach_unknown\":"<<r.reach_unknown<<",\"witness_unknown\":"<<r.witness_unknown<<",\"forks\":"<<c.nforks_total<<",\"max_query_bytes\":"<<r.max_query_bytes
-       <<",\"nf_checks\":"<<c.nf_checks<<",\"nf_mismatch\":"<<c.nf_mismatch<<",\"terms\":{\"raw\":"<<c.rn.size()<<",\"vals\":"<<c.vals.size()<<",\"polys\":"<<c.polys.size()<<",\"atoms\":"<<c.atoms.size()<<"}";
+       <<",\"nf_checks\":"<<c.nf_checks<<",\"nf_mismatch\":"<<c.nf_mismatch<<",\"nf_skipped\":"<<c.nf_skipped<<",\"terms\":{\"raw\":"<<c.rn.size()<<",\"vals\":"<<c.vals.size()<<",\"polys\":"<<c.polys.size()<<",\"atoms\":"<<c.atoms.size()<<"}";
       o<<",\"stops\":{"; { bool f=true; for (auto &kv : r.stops) { o<<(f?"":",")<<"\""<<jesc(kv.first)<<"\":"<<kv.second; f=false; } } o<<"}";
       o<<",\"unexplored_cases\":["; { bool f=true; for (auto &a : r.unexplored_cases) { o<<(f?"":",")<<"\""<<jesc(a)<<"\""; f=false; } } o<<"]";
       o<<",\"samples\":["; for (size_t i=0;i<r.samples.size();++i) o<<(i?",":"")<<"\""<<jesc(r.samples[i])<<"\""; o<<"]";
